@@ -76,8 +76,15 @@ func (v *Vue) evalTemplate(ctx VueContext, nodes []*html.Node, componentData map
 			}
 		}
 
-		// Evaluate v-html if attribute is provided
-		if err := v.evalVHtml(ctx, nodes[0]); err != nil {
+		// Evaluate v-html if attribute is provided. evalVHtml rewrites the node and the node is
+		// returned to the caller, who links it into the output tree: work on a copy, because the
+		// same template node is evaluated again when it is slot content placed several times
+		// (returning the original twice made it its own next sibling).
+		if helpers.GetAttr(node, "v-html") != "" {
+			node = helpers.ShallowCloneWithAttrs(node)
+			nodes = []*html.Node{node}
+		}
+		if err := v.evalVHtml(ctx, node); err != nil {
 			return nil, err
 		}
 
